@@ -25,16 +25,6 @@ DOC_PUS = (ValueError, InvalidTcCrc16, InvalidTmCrc16)
 DOC_CFDP = (ValueError, InvalidCrc, UnsupportedCfdpVersion, TlvTypeMissmatch)
 
 
-class LenCtx(ConcreteCtx):
-    """concrete default run used only to learn the packed length of a variant"""
-
-    def __init__(self):
-        super().__init__({})
-
-    def assume(self, cond):
-        pass
-
-
 def corrupt(ctx, raw, o, excl):
     """XOR the 16-bit window at bit offset o onto raw (list of octets); excl: {octet index: mask of protected bits}"""
     n = len(raw)
